@@ -22,7 +22,7 @@ pub fn property() -> Property {
             "schedules are explored at the instrumented points (H1), at transport Pendings and through spawn order, on a single-threaded runtime",
             "reference codec; tokio paused clock / current-thread scheduler",
         ],
-        families: vec![(Box::new(WritersFam), 40_000, 320_000)],
+        families: vec![(Box::new(WritersFam), 100_000, 2_000_000)],
     }
 }
 
